@@ -78,6 +78,7 @@ static int B_ZV(opplan_t* pl, int role, int fill, unsigned bits, uint64_t n, uin
   b->size = size;
   b->sl = sl;
   b->align = 8;
+  if (fill == F_I64) b->zero_block = n;  // a quarter of the input limbs are the zero polynomial
   return pl->nb++;
 }
 static int B_RAW(opplan_t* pl, int role, int fill, unsigned arg, size_t bytes, size_t align) {
@@ -201,14 +202,19 @@ void op_exec(const opdef_t* o, const env_t* env, uint64_t seed, int prefill, uns
       p[i] = z[i].p;
       if (b->role == R_IN || b->role == R_INOUT || b->role == R_INTMP) {
         for (uint64_t l = 0; l < b->size; l++) fill_buf(&rb, b, zvec_limb(&z[i], l), b->n * 8);
+        // limbs of an in-place buffer beyond the input's size are output-only: what they held before the call must not matter
+        if (b->live_limbs)
+          for (uint64_t l = b->live_limbs - 1; l < b->size; l++) fill_pattern((uint8_t*)zvec_limb(&z[i], l), b->n * 8, prefill, 55 + l);
       } else
         zvec_prefill(&z[i], prefill, 77 + (uint64_t)i);
     } else {
       size_t al = b->align ? b->align : 8;
       size_t mm = al >= 16 ? (m8 / al) * al % 64 : m8;  // the contract promises 8-byte alignment, never less
       p[i] = gb_alloc(&g[i], b->bytes, al, mm, 4096);
-      if (b->role == R_IN || b->role == R_INOUT || b->role == R_INTMP) fill_buf(&rb, b, p[i], b->bytes);
-      else gb_prefill(&g[i], prefill, 99 + (uint64_t)i);
+      if (b->role == R_IN || b->role == R_INOUT || b->role == R_INTMP) {
+        fill_buf(&rb, b, p[i], b->bytes);
+        if (b->live_bytes1 && b->live_bytes1 - 1 < b->bytes) fill_pattern((uint8_t*)p[i] + (b->live_bytes1 - 1), b->bytes - (b->live_bytes1 - 1), prefill, 66);
+      } else gb_prefill(&g[i], prefill, 99 + (uint64_t)i);
     }
     size_t nb = b->is_zvec ? z[i].g.n : b->bytes;
     if (b->role == R_IN) res->src_bytes += nb;
@@ -395,14 +401,18 @@ static void call_sub(const opplan_t* pl, void* const p[], const env_t* e) { vec_
 static void plan_inplace_vec(opplan_t* pl, rng_t* r, const env_t* e) {
   uint64_t rs = rsz(r, 3), as = rsz(r, 3), bs = rsz(r, 3);
   pl->u[0] = rs; pl->u[1] = as;
-  B_ZV(pl, R_INOUT, F_I64, 61, e->N, rs > as ? rs : as, rsl(r, e->N));
+  { int xi = B_ZV(pl, R_INOUT, F_I64, 61, e->N, rs > as ? rs : as, rsl(r, e->N)); if (rs > as) pl->b[xi].live_limbs = as + 1; }
   B_ZV(pl, R_IN, F_I64, 61, e->N, bs, rsl(r, e->N));
   pl->s[0] = rng_sbits(r, 1 + (unsigned)(rng_u64(r) % 62));
+  // one call in five: p a multiple of 2N (the identity map: 0, +-2N, far multiples), one in five: p = N (negation)
+  { const uint64_t q = rng_u64(r) % 5; if (q == 0) pl->s[0] = (int64_t)(2 * e->N) * rng_sbits(r, 1 + (unsigned)(rng_u64(r) % 40)); else if (q == 1) pl->s[0] = (int64_t)e->N * (2 * rng_sbits(r, 20) + 1); }
   pl->u[2] = 1 + rng_u64(r) % 62;
   B_RAW(pl, R_SCRATCH, F_NONE, 0, vec_znx_normalize_base2k_tmp_bytes(e->fft64), 8);
   SHAPE(pl, "%s", szc(rs, as));
 }
 GEN2(inplace_vec)
+// the in-place normalisation is called with res_size = min(res, a): it writes no limb beyond the input's, so the whole buffer is input
+static void plan_inplace_norm(opplan_t* pl, rng_t* r, const env_t* e) { plan_inplace_vec(pl, r, e); pl->b[0].live_limbs = 0; }
 #define IPV(NAME, EXPR)                                                                              \
   static void call_##NAME(const opplan_t* pl, void* const p[], const env_t* e) {                   \
     const MODULE* M = MOD(e, pl); int64_t* x = p[0]; const uint64_t sl = pl->b[0].sl, rs = pl->u[0], as = pl->u[1]; \
@@ -418,9 +428,10 @@ IPV(ip_sub_b, vec_znx_sub(M, x, rs, sl, p[1], pl->b[1].size, pl->b[1].sl, x, as,
 static void plan_inplace_big(opplan_t* pl, rng_t* r, const env_t* e) {
   uint64_t rs = rsz(r, 3), as = rsz(r, 3), bs = rsz(r, 3);
   pl->u[0] = rs; pl->u[1] = as; pl->u[2] = bs;
-  B_RAW(pl, R_INOUT, F_I64, 61, bytes_of_vec_znx_big(e->fft64, rs > as ? rs : as), 8);
+  { int xi = B_RAW(pl, R_INOUT, F_I64, 61, bytes_of_vec_znx_big(e->fft64, rs > as ? rs : as), 8); if (rs > as) pl->b[xi].live_bytes1 = as * e->N * 8 + 1; }
   B_RAW(pl, R_IN, F_I64, 61, bytes_of_vec_znx_big(e->fft64, bs), 8);
   pl->s[0] = rng_sbits(r, 1 + (unsigned)(rng_u64(r) % 62));
+  { const uint64_t q = rng_u64(r) % 5; if (q == 0) pl->s[0] = (int64_t)(2 * e->N) * rng_sbits(r, 1 + (unsigned)(rng_u64(r) % 40)); else if (q == 1) pl->s[0] = (int64_t)e->N * (2 * rng_sbits(r, 20) + 1); }
   SHAPE(pl, "%s", szc(rs, as));
 }
 #define IPB(NAME, EXPR) static void call_##NAME(const opplan_t* pl, void* const p[], const env_t* e) { const MODULE* M = e->fft64; uint64_t rs = pl->u[0], as = pl->u[1], bs = pl->u[2]; (void)bs; EXPR; }
@@ -431,7 +442,7 @@ IPB(ipb_auto, vec_znx_big_automorphism(M, pl->s[0] | 1, p[0], rs, p[0], as))
 static void plan_inplace_idft(opplan_t* pl, rng_t* r, const env_t* e) {
   uint64_t rs = rsz(r, 3), as = rsz(r, 3);
   pl->u[0] = rs; pl->u[1] = as;
-  B_RAW(pl, R_INOUT, F_DBLINT, 40, bytes_of_vec_znx_dft(e->fft64, rs > as ? rs : as), 8);
+  { int xi = B_RAW(pl, R_INOUT, F_DBLINT, 40, bytes_of_vec_znx_dft(e->fft64, rs > as ? rs : as), 8); if (rs > as) pl->b[xi].live_bytes1 = as * e->N * 8 + 1; }
   B_RAW(pl, R_SCRATCH, F_NONE, 0, vec_znx_idft_tmp_bytes(e->fft64), 8);
   SHAPE(pl, "%s", szc(rs, as));
 }
@@ -1059,7 +1070,7 @@ const opdef_t OPS[] = {
     {"vec_znx_copy(res==a)", OPF_FFT64, plan_inplace_vec, call_ip_copy}, {"vec_znx_negate(res==a)", OPF_FFT64, plan_inplace_vec, call_ip_negate},
     {"vec_znx_rotate(res==a)", OPF_FFT64, plan_inplace_vec, call_ip_rotate}, {"vec_znx_rotate(res==a)@ntt120", OPF_NTT120, NTTV(inplace_vec), call_ip_rotate},
     {"vec_znx_automorphism(res==a)", OPF_FFT64, plan_inplace_vec, call_ip_auto}, {"vec_znx_automorphism(res==a)@ntt120", OPF_NTT120, NTTV(inplace_vec), call_ip_auto},
-    {"vec_znx_normalize_base2k(res==a)", OPF_FFT64, plan_inplace_vec, call_ip_normalize},
+    {"vec_znx_normalize_base2k(res==a)", OPF_FFT64, plan_inplace_norm, call_ip_normalize},
     {"vec_znx_add(res==a)", OPF_FFT64, plan_inplace_vec, call_ip_add}, {"vec_znx_sub(res==b)", OPF_FFT64, plan_inplace_vec, call_ip_sub_b},
     {"vec_znx_big_add(res==a)", OPF_FFT64, plan_inplace_big, call_ipb_add}, {"vec_znx_big_sub(res==b)", OPF_FFT64, plan_inplace_big, call_ipb_sub},
     {"vec_znx_big_rotate(res==a)", OPF_FFT64, plan_inplace_big, call_ipb_rotate}, {"vec_znx_big_automorphism(res==a)", OPF_FFT64, plan_inplace_big, call_ipb_auto},
